@@ -75,6 +75,7 @@ for name, (en, dis) in {
     P.append((name, fs))
     FEATURES[name] = (en, dis)
 P.append(("webhooksec", open(os.path.join(os.path.dirname(os.path.abspath(__file__)), "spec_webhook_security.yml")).read()))
+P.append(("enumconst", open(os.path.join(os.path.dirname(os.path.abspath(__file__)), "spec_enum_const_collision.yml")).read()))
 P.append(("patdefdup", open(os.path.join(os.path.dirname(os.path.abspath(__file__)), "spec_pattern_default_dup.yml")).read()))
 print(json.dumps({"packages": [dict({"name": n, "spec": s}, **({"enable": FEATURES[n][0], "disable": FEATURES[n][1]} if n in FEATURES else {})) for n, s in P], "cases": {"quick": [], "thorough": []},
                   "bounds": {"specs": "%d specs: response pattern+default sharing a schema, hostile property / schema / operation / parameter names (keywords, digits-first, spaces, quotes, backslash, non-ASCII, '_', colliding after normalisation), enum values needing escaping, nested/optional/nullable/map/recursive shapes, sum types, several response codes with headers, enum values with nothing to build an identifier from, one generic type as the body of several operations, object-shaped parameters (maps and structs) per location and style, and one spec (paths, webhooks, security, validation keywords) under 10 feature configurations incl. client-only, server-only, validation, request options and example tests" % len(P)}}))
